@@ -296,6 +296,8 @@ pub fn transform_glyf(
             Glyph::Composite(c) => {
                 n_contour.i16(-1);
                 composite.bytes(&encode_components(c));
+                // the instruction length is present iff *any* component has WE_HAVE_INSTRUCTIONS
+                assert!(c.instructions.is_some() == c.any_instruction_flag());
                 if let Some(ins) = &c.instructions {
                     glyph_stream.bytes(&u255(ins.len() as u16, ch, st));
                     instr.bytes(ins);
